@@ -75,6 +75,17 @@ def child_with_blackbox(mk, mkbb):
     return c
 
 
+def child_pin_output(mk, mkbb):
+    # a child whose only output is an output pin of a blackbox instance of its own (marked with set_output), which also feeds a
+    # buffer inside the child: x -> r.d, r.q -> qb, outputs == {r.q}
+    c = mk("cpin")
+    c.add("x", "input")
+    c.add("qb", "buf")
+    c.add_blackbox(mkbb("ff1", ["d"], ["q"]), "r", {"d": "x", "q": "qb"})
+    c.set_output("r.q")
+    return c
+
+
 def child_feedthrough(mk):
     c = mk("ft")
     c.add("d", "input")
@@ -108,6 +119,10 @@ def histories():
     # self-referential arguments: the circuit as its own sub-circuit, and as the filling of one of its own blackboxes
     H["circuit-spliced-into-itself"] = [A("a", "input"), A("b", "input"), A("g", "and", fanin=["a", "b"], output=True), ("@add_sub_self", ("u", None), {}), ("@add_sub_self", ("v", {"a": "g"}), {}), ("outputs", (), {})]
     H["circuit-filled-into-its-own-blackbox"] = [A("a", "input"), A("o", "buf", output=True), ("@add_blackbox", ("t", ["a"], ["o"], "u", {"a": "a", "o": "o"}), {}), ("@fill_self", ("u",), {}), ("fanin", ("o",), {})]
+    # the filling circuit's output is an output pin of a blackbox of its own that already has its one load inside: taking over the
+    # load of the filled instance's pin as well would leave a blackbox output with two loads
+    H["fill-with-a-child-whose-output-is-a-blackbox-pin"] = [A("a", "input"), A("o", "buf", output=True), ("@add_blackbox", ("m", ["x"], ["r.q"], "u", {"x": "a", "r.q": "o"}), {}), ("@fill", ("u", "pinout"), {}),
+                                                             ("fanout", ("u_r.q",), {})]
     H["subcircuit-with-a-loop"] = [A("a", "input"), A("b", "input"), ("is_cyclic", (), {}), ("@add_sub", ("loop", "l0", {"s": "a", "r": "b"}), {}), ("is_cyclic", (), {}), ("remove", ("l0_q",), {}), ("is_cyclic", (), {})]
     H["subcircuit-connections"] = [A("a", "input"), A("b", "input"), A("t1", "buf"), A("t2", "buf", output=True), ("@add_sub", ("ha", "h0", {"x": "a", "y": "a", "c": "t1", "s": "t2"}), {}),
                                    ("@add_sub", ("ha", "h0", None), {}), ("@add_sub", ("ha", "h1", {"x": "t1", "nope": "b"}), {}), ("@add_sub", ("ha", "h2", {"x": "ghost"}), {}),
@@ -139,7 +154,7 @@ class Driver:
             return c.add_blackbox(self.bbs[key], inst, dict(conns) if conns else None)
         if meth == "@fill":
             inst, which = args
-            child = child_with_blackbox(self.mk, self.mkbb) if which == "withbb" else {"feedthrough": child_feedthrough, "ha": child_ha}[which](self.mk)
+            child = child_with_blackbox(self.mk, self.mkbb) if which == "withbb" else child_pin_output(self.mk, self.mkbb) if which == "pinout" else {"feedthrough": child_feedthrough, "ha": child_ha}[which](self.mk)
             return c.fill_blackbox(inst, child)
         if meth == "@add_sub":
             which, inst, conns = args
